@@ -25,12 +25,14 @@ def main():
   if scen.setup is not None:
     scen.setup()
   from vlib.core import Violation, Inconclusive, case_hash  # pylint: disable=g-import-not-at-top
-  st = {'execs': 0, 'decoded': 0, 'nontrivial': set(), 'failure': None}
+  st = {'execs': 0, 'decoded': 0, 'nontrivial': set(), 'failure': None, 'excluded_known': {}}
+  known = unit._known_filter(mod, spec['prop'])  # pylint: disable=protected-access
 
   def flush():
     tmp = spec['stats'] + '.tmp'
     with open(tmp, 'w') as f:
-      json.dump({'execs': st['execs'], 'decoded': st['decoded'], 'nontrivial': len(st['nontrivial']), 'failure': st['failure']}, f, default=str)
+      json.dump({'execs': st['execs'], 'decoded': st['decoded'], 'nontrivial': len(st['nontrivial']), 'failure': st['failure'],
+                 'excluded_known': st['excluded_known']}, f, default=str)
     os.replace(tmp, spec['stats'])
 
   def execute(case):
@@ -40,6 +42,14 @@ def main():
     except Inconclusive:
       return
     except Violation as v:
+      for kid, pred in known.items():
+        try:
+          hit = pred(scen.name, case, v)
+        except Exception:  # pylint: disable=broad-exception-caught
+          hit = False
+        if hit:       # a recorded open finding: counted and stepped over, like in the Hypothesis units
+          st['excluded_known'][kid] = st['excluded_known'].get(kid, 0) + 1
+          return
       st['failure'] = {'case': case, 'violation': v.to_json()}
       flush()
       os._exit(77)
